@@ -218,6 +218,25 @@ def build_cases(rng, tier):
     for la in ["en", "EN", "en-US", "fr", "de", "e", ""]:
         for ctx in range(1, nsflat["n"] + 1):
             cases.append((nd, ctx, 1, 1, fn("lang", lit(la)), {}))
+    # CROSS-DOCUMENT family: inside a predicate on nodes of ANOTHER document (held by $e) the context node is in that document while
+    # current() is still the node the expression was started at.  id() searches the document of the CONTEXT node (XPath 4.1),
+    # current() stays where it is, unions of both deliver document by document.
+    E_ = var("e")
+    cur_tests = [filt(E_, fn("id", lit("i1 i2 i3 zz"))), fn("count", filt(E_, bin_("=", fn("count", fn("id", lit("i1"))), num(1)))),
+                 filt(E_, fn("id", fn("string", path([step("attribute", t_name("id"))], start=fn("current"))))),
+                 filt(E_, bin_("=", fn("count", bin_("|", fn("current"), path([step("self", T_NODE)]))), num(2))),
+                 bin_("|", E_, fn("current")), bin_("|", fn("id", lit("i1 i2")), filt(E_, fn("id", lit("i1 i2")))),
+                 fn("count", path([step("ancestor-or-self", T_NODE, filt(path([step("self", T_NODE)]), fn("id", lit("i2"))), abbr=False)], start=E_)),
+                 fn("name", filt(fn("id", lit("i1 i3")), bin_("=", fn("count", filt(E_, fn("id", lit("i3")))), num(0)))),
+                 fn("count", filt(E_, path([step("self", T_NODE)], start=fn("id", path([step("attribute", t_name("id"))])))))]
+    with_ids = [i for i, f in enumerate(flats) if any(f["isid"])] or [1]
+    for da in with_ids[:2] + [0]:
+        for db in [x for x in with_ids[:1] + [0, 2, nd - 1] if x != da][:3]:
+            na, nb = flats[da]["n"], flats[db]["n"]
+            for e in cur_tests:
+                for ctx in sorted(set([1, 2, na] + rng.sample(range(1, na + 1), min(na, 2)))):
+                    for ids in ([1, 2], sorted(rng.sample(range(1, nb + 1), min(nb, 4))), list(range(1, nb + 1))):
+                        cases.append((da + 1, ctx, 1, 1, e, {"e": {"t": "ns", "v": [[db + 1, i, 0] for i in ids]}}))
     nrand = 6000 if quick else 120000
     varsets = [{}, {"n": {"t": "num", "v": {"k": "fin", "neg": False, "m": 16}}, "s": {"t": "str", "v": xdm.cps("t")},
                     "b": {"t": "bool", "v": True}}]
@@ -292,8 +311,11 @@ def run_cases(docs, flats, cases, wd, kind="native", mode="eval", tag="c02", fla
         with open(cp, "w") as f:
             f.write(json.dumps(head) + "\n")
             for k, (d, ctx, pos, size, e, vs) in enumerate(ch):
-                f.write(json.dumps({"id": k, "mode": mode, "doc": d, "ctx": ctx, "pos": pos, "size": size,
-                                    "text": e if isinstance(e, str) else xpgen.render(e), "vars": vs, "ns": NSMAP}) + "\n")
+                cj = {"id": k, "mode": mode, "doc": d, "ctx": ctx, "pos": pos, "size": size,
+                      "text": e if isinstance(e, str) else xpgen.render(e), "vars": {k_: v_ for k_, v_ in vs.items() if k_ != "__cur"}, "ns": NSMAP}
+                if "__cur" in vs:
+                    cj["cur"] = vs["__cur"]
+                f.write(json.dumps(cj) + "\n")
         rp = os.path.join(wd, "%s-res-%d.ndjson" % (tag, s))
         procs.append((s, ch, rp, subprocess.Popen([exe, cp], stdout=open(rp, "w"), stderr=subprocess.PIPE, env=dict(os.environ, ASAN_OPTIONS="detect_leaks=0"))))
     events, crashes = [], []
@@ -327,6 +349,9 @@ def run_cases(docs, flats, cases, wd, kind="native", mode="eval", tag="c02", fla
                     toks = xplex.lex(text)
                     ev["toks"] = toks or []; ev["lexok"] = toks is not None
             ev["nsmap"] = [{"p": xdm.cps(k_), "u": xdm.cps(v_)} for k_, v_ in sorted(NSMAP.items())]
+            if "__cur" in vs:
+                ev["cur"] = vs["__cur"]
+                ev["vars"] = {k_: v_ for k_, v_ in vs.items() if k_ != "__cur"}
             r = res[k]
             for f in ("error", "res", "matched", "targets"):
                 if f in r:
